@@ -2,6 +2,7 @@
 //! checks of /verif (see DESIGN.md).  `vh <subcommand> [--key value]...`
 mod c01;
 mod c05;
+mod c06;
 mod gen;
 mod peg;
 mod stack;
@@ -28,6 +29,8 @@ fn main() {
         "c05-emit" => big_stack(move || c05::emit(&rest2)),
         "c12-emit" => big_stack(move || sweep::c12(&rest2)),
         "c15-emit" => big_stack(move || sweep::c15(&rest2)),
+        "c06-replay" => big_stack(move || c06::replay(&rest2)),
+        "c06-emit" => big_stack(move || c06::emit(&rest2)),
         "c01-replay" => big_stack(move || c01::replay(&rest2)),
         "stack-replay" => stack::replay(rest),
         "stack-emit" => stack::emit(rest),
